@@ -121,6 +121,17 @@ def check_case(case):
                         "rot[i].B.perm[i] = B for a conforming cell")
         cached = symmetry.ROTATIONS[k]
         r.require(cached.shape == rot.shape and bool(np.all(cached == rot)), key + ":cached", "ROTATIONS[k] equals rotations(k)")
+        # history: the caller edits the arrays it got; later calls (in both orders) must be unaffected
+        from ..core import scribble
+
+        p1, r1 = symmetry.permutations(k), symmetry.rotations(k)
+        scribble(p1)
+        scribble(r1)
+        for order in (("rotations", "permutations"), ("permutations", "rotations"), ("rotations", "rotations")):
+            for fn in order:
+                out = np.asarray(getattr(symmetry, fn)(k), float)
+                r.require(bool(np.all(out == (rot if fn == "rotations" else perm))), key + ":again:%s-in-%s" % (fn, "+".join(order)), "%s(k) is the same on every call" % fn)
+        r.require(bool(np.all(symmetry.ROTATIONS[k] == rot)), key + ":cached-again", "ROTATIONS[k] still equals rotations(k)")
         r.states = len(perm) + len(rot)
         return r
     # Umis
@@ -161,6 +172,13 @@ def check_case(case):
             r.check("small-angle", float(np.max(np.abs(m[:, 1] - ref))), 1e-4, key, "Umis resolves a small misorientation on top of a symmetry operator", ref, m[:, 1])
             r.check("small-angle-min", abs(float(m[:, 1].min()) - epsdeg), 1e-4, key + ":min", "smallest angle = the applied misorientation", epsdeg, float(m[:, 1].min()))
             r.transitions += 1
+    # history: results already returned must not change when Umis is called again (same crystal system, other orientations)
+    held = []
+    for q2, U2 in R[:6]:
+        out = symmetry.Umis(U1, U2, k)
+        held.append((q2, out, np.array(out, float, copy=True)))
+    for q2, out, snap in held:
+        r.require(bool(np.array_equal(np.asarray(out, float), snap)), "cs%d:U1=%s:U2=%s:held" % (k, q1, q2), "a Umis result already returned is not changed by later calls")
     mm = np.asarray(symmetry.Umis(U1, U1, k), float)
     r.require(float(mm[:, 1].min()) < 1e-4, "cs%d:U=%s:self" % (k, q1), "Umis(U,U) contains 0", 0, float(mm[:, 1].min()))
     return r
